@@ -3,7 +3,7 @@
 From Coq Require Import ZArith NArith List Bool Permutation Reals.
 From Coq Require Import Floats.SpecFloat.
 From Flocq Require Import Core.Defs Core.Raux IEEE754.BinarySingleNaN.
-From RlibV Require Import C14.Model C14.Corr C14.Spec C14.ProofsInt C14.ProofsLcg C14.ProofsShuffle C14.ProofsFloat C14.ProofsFloatR C14.ProofsCorr.
+From RlibV Require Import C14.Model C14.Corr C14.Spec C14.ProofsInt C14.ProofsLcg C14.ProofsShuffle C14.ProofsFloat C14.ProofsFloatR C14.ProofsMix C14.ProofsCorr.
 Import ListNotations.
 Open Scope Z_scope.
 
@@ -97,7 +97,17 @@ Theorem c14_float_unit_in_0_1 :
   forall raw : Z, 0 <= raw < 2 ^ 64 -> exists u : binary_float 53 1024, f_unit raw = B2SF u /\ is_finite u = true /\ B2R u = (IZR (raw / 2 ^ 11) * / IZR (2 ^ 53))%R /\ (0 <= B2R u < 1)%R.
 Proof. exact float_unit_exact. Qed.
 
-(** correspondence corollary: on every case in scope (Corr.in_scope: valid width and bounds, equally long copies, a slice of at most 2^64 elements; the aperiodicity test of long streams and the all-orders coverage of a seed list are kept as hypotheses, everything else is unconditional), if what the real crate returned equals what the model computes then it satisfies the model-independent specification: draws in range / panic exactly on empty ranges, reachability sweeps, start <= x < end on decoded bit patterns, u64 raws, stream length and membership, equal copies, shuffle results are permutations and panic only on an exhausted script; no axioms *)
+(** the concrete generator [Rng] is the instance (lcg_A, lcg_C) of the model of the const-generic LinearCongruentialGenerator64<A, C> that the mixed-history cases (Corr.CMix) run for several pairs of constants *)
+Theorem c14_generic_instance :
+  forall st, glcg_step lcg_A lcg_C st = lcg_step st /\ gnext_raw lcg_A lcg_C st = next_raw st /\ gnext lcg_A lcg_C st = rng_next st.
+Proof. exact generic_instance. Qed.
+
+(** the fast jump used by the long-run cases (n dropped calls of next_raw) is the state transition iterated n times, for every pair of constants, every n and every state *)
+Theorem c14_jump_is_iterated_step :
+  forall (a c : Z) (n : N) (st : Z), lcg_jump a c n st = iter_n (glcg_step a c) (N.to_nat n) st.
+Proof. exact jump_is_iterated_step. Qed.
+
+(** correspondence corollary: on every case in scope (Corr.in_scope: valid width and bounds, equally long copies, a slice of at most 2^64 elements; the aperiodicity test of long streams and the all-orders coverage of a seed list are kept as hypotheses, everything else is unconditional), if what the real crate returned equals what the model computes then it satisfies the model-independent specification: draws in range / panic exactly on empty ranges, reachability sweeps, start <= x < end on decoded bit patterns, u64 raws, stream length and membership, equal copies, shuffle results are permutations and panic only on an exhausted script; for a history of mixed operations on one generator of arbitrary constants (Corr.CMix: valid operations; that consecutive long shuffles differ is kept as a hypothesis) every single observation satisfies the clause of its operation and there is exactly one observation per operation up to the first panic; no axioms *)
 Theorem c14_model_check_spec_check :
   forall c : case, in_scope c = true -> model_check c = true -> spec_check c = true.
 Proof. exact model_check_spec_check. Qed.
